@@ -113,6 +113,8 @@ type pkgJ struct {
 	Layer        *layerJ `json:"layer,omitempty"`
 	CPEs         []S     `json:"cpes,omitempty"`
 	MetaKind     string  `json:"meta_kind,omitempty"` // synthetic stream: spdx | cdx | fake
+	MetaType     string  `json:"metadata_type,omitempty"` // dynamic type of Package.Metadata: [*]<package path>.<Type>
+	ProtoCase    string  `json:"proto_metadata_case,omitempty"` // oneof case set by setProtoMetadata
 	RT1          *purlJ  `json:"roundtrip1"`
 	RT1Err       string  `json:"roundtrip1_err,omitempty"`
 	RT2          *purlJ  `json:"roundtrip2"`
@@ -121,6 +123,7 @@ type pkgJ struct {
 }
 
 type protoPkgJ struct {
+	Case          string // metadata oneof case (Package_<Case>), "" when unset
 	Name, Version S
 	Source        *[2]S
 	Purl          *purlJ
@@ -445,7 +448,7 @@ func observe(c *caseJ, pkgs []*extractor.Package) []panicEvent {
 	purls := make([]*purl.PackageURL, len(pkgs))
 	c.Pkgs = make([]pkgJ, len(pkgs))
 	for i, p := range pkgs {
-		j := pkgJ{Name: S(p.Name), Version: S(p.Version), Locations: ss(p.Locations), HasExtractor: p.Extractor != nil, CPEs: ss(cpesOf(p))}
+		j := pkgJ{Name: S(p.Name), Version: S(p.Version), Locations: ss(p.Locations), HasExtractor: p.Extractor != nil, CPEs: ss(cpesOf(p)), MetaType: metaTypeOf(p.Metadata)}
 		if j.Locations == nil {
 			j.Locations = []S{}
 		}
@@ -532,6 +535,11 @@ func observe(c *caseJ, pkgs []*extractor.Package) []panicEvent {
 		for _, pp := range res.GetInventory().GetPackages() {
 			c.Proto = append(c.Proto, protoProject(pp))
 		}
+		if len(c.Proto) == len(c.Pkgs) {
+			for i := range c.Pkgs {
+				c.Pkgs[i].ProtoCase = c.Proto[i].Case
+			}
+		}
 	})
 	c.SpdxPanic = safe(func() {
 		doc := converter.ToSPDX23(sr, converter.SPDXConfig{})
@@ -590,11 +598,27 @@ func observe(c *caseJ, pkgs []*extractor.Package) []panicEvent {
 	return nil
 }
 
+// metaTypeOf names the dynamic type the way the translator does: [*]<package path below the module>.<Type>
+func metaTypeOf(m any) string {
+	if m == nil {
+		return ""
+	}
+	t := reflect.TypeOf(m)
+	star := ""
+	if t.Kind() == reflect.Ptr {
+		star, t = "*", t.Elem()
+	}
+	return star + strings.TrimPrefix(t.PkgPath(), "github.com/google/osv-scalibr/") + "." + t.Name()
+}
+
 func protoProject(pp *spb.Package) protoPkgJ {
 	x := protoPkgJ{Name: S(pp.GetName()), Version: S(pp.GetVersion()), Ecosystem: S(pp.GetEcosystem()), Locations: ss(pp.GetLocations()),
 		Extractor: S(pp.GetExtractor())}
 	if x.Locations == nil {
 		x.Locations = []S{}
+	}
+	if md := pp.GetMetadata(); md != nil {
+		x.Case = strings.TrimPrefix(reflect.TypeOf(md).Elem().Name(), "Package_")
 	}
 	if sc := pp.GetSourceCode(); sc != nil {
 		x.Source = &[2]S{S(sc.GetRepo()), S(sc.GetCommit())}
@@ -682,8 +706,15 @@ func coqPkg(j *pkgJ) string {
 	}
 	k := fmt.Sprintf("{| k_name := %s; k_version := %s; k_source := %s; k_locations := %s; k_has_extractor := %s; k_extractor := %s; k_purl := %s; k_ecosystem := %s; k_annotations := %s; k_layer := %s; k_cpes := %s |}",
 		cs(j.Name), cs(j.Version), cpair(j.Source), csl(j.Locations), cf.Bool(j.HasExtractor), cs(j.Extractor), copurl(j.Purl), cs(j.Ecosystem), czs(j.Annotations), layer, csl(j.CPEs))
-	return fmt.Sprintf("{| o_pkg := %s; o_purl_str := %s; o_rt1 := %s; o_rt2 := %s; o_specific := %s; o_of_type := %s |}",
-		k, cs(j.PurlStr), copurl(j.RT1), copurl(j.RT2), cnats(j.Specific), cnats(j.OfType))
+	meta, pcase := "None", "None"
+	if j.MetaType != "" {
+		meta = fmt.Sprintf("(Some (%s, %s))", cf.Str(strings.TrimPrefix(j.MetaType, "*")), cf.Bool(strings.HasPrefix(j.MetaType, "*")))
+	}
+	if j.ProtoCase != "" {
+		pcase = "(Some " + cf.Str(j.ProtoCase) + ")"
+	}
+	return fmt.Sprintf("{| o_pkg := %s; o_purl_str := %s; o_rt1 := %s; o_rt2 := %s; o_meta := %s; o_proto_case := %s; o_specific := %s; o_of_type := %s |}",
+		k, cs(j.PurlStr), copurl(j.RT1), copurl(j.RT2), meta, pcase, cnats(j.Specific), cnats(j.OfType))
 }
 
 func coqCase(c *caseJ) string {
@@ -938,6 +969,7 @@ func main() {
 	maxPkgs := flag.Int("maxpkgs", 4000, "overall cap on harvested packages")
 	emptiedFile := flag.String("emptied", "/root/.vp/EMPTIED_FILES.txt", "list of emptied fixture files to skip")
 	typesJSON := flag.String("types", "", "purltypes JSON (emitted types for the synthetic stream)")
+	c03dump := flag.String("c03dump", "", "directory written by `formats -dumpdir` (C03 generators): every case directory is scanned as a root with the extractors' own FileRequired")
 	extra := flag.String("extra", os.Getenv("VERIF_C14_EXTRA_ROOTS"), "comma separated extra directories (e.g. C03 generator output, C02 corpus) offered to every extractor")
 	replay := flag.String("replay", "", "replay a JSON case (as written into replays/)")
 	witness := flag.String("witness", "", "known-finding witness JSON: prints whether it still fails")
@@ -988,6 +1020,29 @@ func main() {
 		}
 		h.runCopy(d, ws, 300*time.Second)
 	}
+	c03roots := 0
+	if *c03dump != "" {
+		if f, err := os.Open(filepath.Join(*c03dump, "index.jsonl")); err == nil {
+			dec := json.NewDecoder(f)
+			for {
+				var e struct {
+					Root, Path, Format, Stream string
+				}
+				if dec.Decode(&e) != nil {
+					break
+				}
+				var ws []filesystem.Extractor
+				for _, ex := range exts {
+					ws = append(ws, &wrapExt{inner: ex, always: false, own: true, h: h})
+				}
+				h.curStream = "c03-" + e.Stream
+				h.run(filepath.Join(*c03dump, e.Root), ws, 60*time.Second)
+				c03roots++
+			}
+			f.Close()
+			h.curStream = ""
+		}
+	}
 	harvestSecs := time.Since(t0).Seconds()
 	fixtureGroups := len(h.groups)
 
@@ -1005,7 +1060,8 @@ func main() {
 	var cands []cand
 	for _, g := range h.groups {
 		full := filepath.Join(g.src.Root, g.src.Path)
-		if st, err := os.Stat(full); err == nil && st.Size() < 200_000 && g.own {
+		// only repository fixtures of the extractor's own kind are mutated (not generated documents / C03 dumps)
+		if st, err := os.Stat(full); err == nil && st.Size() < 200_000 && g.own && g.stream == "" {
 			cands = append(cands, cand{g.ext.(*wrapExt).inner, g.src.Root, g.src.Path})
 		}
 	}
@@ -1092,8 +1148,14 @@ func main() {
 			}
 			if g.stream != "" {
 				c.Stream = g.stream
-				// components without a name are not well-formed CycloneDX/SPDX: correspondence and no-panic only
-				c.Emitted = g.stream == "sbom-document"
+				// components without a name are not well-formed CycloneDX/SPDX, the malformed / ill-formed C03 streams are
+				// not well-formed databases: correspondence and no-panic only
+				switch g.stream {
+				case "sbom-document", "c03-wellformed", "c03-rich-grammar", "c03-with-replace", "c03-with-toolchain":
+					c.Emitted = true
+				default:
+					c.Emitted = false
+				}
 			}
 			evs := observe(c, pk[from:to])
 			total += to - from
@@ -1192,6 +1254,7 @@ func main() {
 	streams := map[string]int{}
 	typeHist := map[string]int{}
 	locHist := map[string]int{}
+	metaHist := map[string]int{}
 	nameDiffers := 0
 	for _, c := range cases {
 		items = append(items, coqCase(c))
@@ -1215,6 +1278,11 @@ func main() {
 				}
 			}
 			typeHist[t]++
+			mk := j.MetaType + " -> " + j.ProtoCase
+			if j.MetaType == "" {
+				mk = "(nil)"
+			}
+			metaHist[mk]++
 			nl := len(j.Locations)
 			if nl > 3 {
 				nl = 3
@@ -1238,7 +1306,8 @@ func main() {
 			"cases": len(cases), "packages": pkgCount, "distinct_nontrivial_packages": nontrivial,
 			"streams": streams, "purl_types": typeHist, "locations_per_package": locHist,
 			"packages_per_extractor": h.perExtractor, "panics": allPanics, "harvest_seconds": harvestSecs,
-			"purl_name_differs_from_package_name": nameDiffers, "oversize_packages_left_out": oversize,
+			"purl_name_differs_from_package_name": nameDiffers, "oversize_packages_left_out": oversize, "c03_roots": c03roots,
+			"metadata_types": metaHist,
 		}
 		b, _ := json.MarshalIndent(sum, "", " ")
 		os.WriteFile(*summary, b, 0o644)
